@@ -8,10 +8,11 @@
    blocks into messages and every interleaving [sched] of message delivery with the executor's loads.
    It is FALSE of the code as it stands in two regions (C02_skipcount_refuted, C02_rootmissing_refuted:
    recorded findings C02-F1, C02-F2) and was false in a third before the path-tracker repair
-   (C02_refuted_before_fix).  No all-plans C02 theorem is proved yet; the reference [ref_outcome] is
-   evaluated against the real two-endpoint stack on every generated case instead (monitor MON02). *)
+   (C02_refuted_before_fix).  Proved so far for all plans: C02_online_onemsg_partial (requests that go online
+   at the root, response in one message) and C02_pathtracker_exact_partial; the reference [ref_outcome] is
+   evaluated against the real two-endpoint stack on every generated case besides (monitor MON02). *)
 From Coq Require Import List NArith Bool.
-From GS Require Import Base Ltree RecLoader ReqExec RecLoaderProofs.
+From GS Require Import Base Ltree RecLoader ReqExec RecLoaderProofs C02Online.
 Import ListNotations.
 Open Scope N_scope.
 
@@ -68,6 +69,23 @@ Theorem C02_pathtracker_exact_partial :
      In n (tpaths t1) -> In m (tpaths t2) -> proper_prefix n m = false).
 Proof. split; [exact below_parent | exact later_sibling_not_below]. Qed.
 Print Assumptions C02_pathtracker_exact_partial.
+
+(* Proved for ALL well-formed plans, all stores and all schedules: a request whose root the requestor lacks and
+   the responder holds (so it goes online at once, skip 0, nothing to re-verify), the responder's whole output
+   arriving in one message (delivered before or while the first online load waits: [sched]), ends exactly as
+   the reference says: same delivered visits in order, same missing-block errors, no other error, same final
+   store.  Covers the path tracker (links below a link the responder lacks are loaded locally; the state is
+   reset on leaving the subtree — needs wf_plan), the local fallback for blocks the responder does not resend,
+   the dedup rule of IngestResponse, and the store writes.  [agree R L]: a CID names the same bytes in both stores.
+   Not yet covered by a theorem: a non-empty locally loaded prefix (verifier replay over the record trie) and
+   responses cut into several messages arriving during the traversal. *)
+Theorem C02_online_onemsg_partial :
+  forall t L R sched,
+    wf_plan t = true -> agree R L ->
+    aget (root_cid t) L = None -> aget (root_cid t) R <> None ->
+    model_outcome t L R [] sched = ref_outcome t L R.
+Proof. exact c02_online_onemsg. Qed.
+Print Assumptions C02_online_onemsg_partial.
 
 (* Non-vacuity of the reference and of the model on a case outside the findings: a 7-link plan with an
    inline node, the responder lacking one subtree that the requestor partly holds, three chunkings and
